@@ -1,0 +1,1 @@
+//! Facade for `lru_time_cache.rs`.
